@@ -116,24 +116,33 @@ def get_type_graph(t: type) -> graphlib.TopologicalSorter[TypeNode]:
         in a closed loop which never terminates (infinite recursion).
     """
     graph: graphlib.TopologicalSorter = graphlib.TopologicalSorter()
-    u = inspection.unwrap(t)
+    u = _unwrap(t)
     root = TypeNode(t, u)
     stack = collections.deque([root])
     visited = {root.type, root.unwrapped}
     while stack:
         parent = stack.popleft()
-        parent_unwrapped = inspection.unwrap(parent.type)
-        if inspection.isliteral(parent_unwrapped):
+        parent_unwrapped = _unwrap(parent.type)
+        # Literals and callables have arguments, but those are not member types.
+        if (
+            inspection.isliteral(parent_unwrapped)
+            or inspection.origin(parent_unwrapped) is typing.Callable
+        ):
             graph.add(parent)
             continue
 
         predecessors = []
         for var, child in _level(parent_unwrapped):
             # If no type was provided, there's no reason to do further processing.
-            if child in (constants.empty, typing.Any, Ellipsis):
+            if child in (constants.empty, Ellipsis):
                 continue
 
-            unwrapped = inspection.unwrap(child)
+            unwrapped = _unwrap(child)
+            # An untyped field is left to the structured routine (no-op),
+            #   but a container still needs a routine for an untyped member.
+            if unwrapped is typing.Any and var is not None:
+                continue
+
             # Only subscripted generics or non-stdlib types can be cyclic.
             #   i.e., we may get `str` or `datetime` any number of times,
             #   that's not cyclic, so we can just add it to the graph.
@@ -191,6 +200,14 @@ class TypeNode:
     def __post_init__(self):
         if self.unwrapped is None:
             self.unwrapped = self.type
+
+
+def _unwrap(t: typing.Any) -> typing.Any:
+    u = inspection.unwrap(t)
+    # A type variable stands for its bound, its constraints, or anything at all.
+    if type(u) is typing.TypeVar:
+        u = inspection.normalize_typevar(u)
+    return u
 
 
 def _level(t: typing.Any) -> typing.Iterable[tuple[str | None, type]]:
